@@ -282,11 +282,21 @@ class Caller(object):
             if kind == "wrapper":
                 apps = {v: "app" for v in vr}
                 label = "wrapper[%s]" % pname
+                kw = {"place": pfn, "place_kwargs": pkw}
+                if t.draw(2):
+                    kw["reserve_monitor"] = bool(t.draw(2))
+                    kw["align_sdram"] = bool(t.draw(2))
+                    label += "[monitor=%r,align=%r]" % (
+                        kw["reserve_monitor"], kw["align_sdram"])
+                cons = constraints[1:]
+                args = (vr, apps, nets, g.net_keys, machine, cons)
+                if len(cons) == 0 and t.draw(2):
+                    # constraints left to their default
+                    args = args[:5]
+                    label += "[no constraints argument]"
                 r = self.guarded(
-                    label, par.wrapper,
-                    (vr, apps, nets, g.net_keys, machine, constraints[1:]),
-                    {"place": pfn, "place_kwargs": pkw},
-                    [vr, apps, nets, g.net_keys, machine, constraints])
+                    label, par.wrapper, args, kw,
+                    [vr, apps, nets, g.net_keys, machine, cons])
                 return label, self.norm(r)
             label = "place[%s]" % pname
             kw_snap = {k: v for k, v in pkw.items() if k != "random"}
